@@ -20,6 +20,8 @@ def serve_rsync(channel: Channel) -> None:
     from hashlib import md5
 
     destdir, options = cast("tuple[str, dict[str, object]]", channel.receive())
+    # normalize a trailing '/' away (paths are cut relative to destdir below)
+    destdir = os.path.dirname(os.path.join(destdir, "x"))
     modifiedfiles = []
 
     def remove(path: str) -> None:
